@@ -1,0 +1,8 @@
+// Copyright 2026 Juan Pablo Tosso and the OWASP Coraza contributors
+// SPDX-License-Identifier: Apache-2.0
+
+//go:build !verif && !tinygo && !coraza.no_memoize
+
+package memoize
+
+func verifYield(string) {}
